@@ -148,6 +148,12 @@ var slotTemplates = []template{
 		{"", "-", "+", "!"},
 		{"0", "0x", "0b", "0o", "1e", "1.", ".5", "1_0", "9223372036854775808", "1e999", "0x8000000000000000", "007", "08", "1.2.3", "1..2", "0xg", "1e+"},
 		{"", "e5", ".x", "x", "++", "()", "[0]"}}},
+	{"compile-error-in-literal", [][]string{
+		// a function literal that fails to compile, inside every kind of block: the compiler has to
+		// unwind its scopes and code objects correctly from wherever the error happens
+		{"", "if true {", "for i := range 2 {", "for v in [1] {", "for i := 0; i < 1; i++ {", "for {", "switch 1 { case 1:", "func() {", "try(func() {", "z := [1]; for v in z {", "if false { } else {"},
+		{"func() { nope }", "g := func() { nope }", "func() { break }()", "func(a=nope) {}", "func() { const c = 1; c = 2 }", "func() { return func() { nope2 } }", "func h() { nope }", "func() { x := 1; x := 2 }", "func() { continue }"},
+		{"", "}", "}()", "})", "; break }"}}},
 	{"incdec", [][]string{
 		{"x", "x.y", "x[0]", "1", "", "z := 1; z"},
 		{"++", "--"},
